@@ -143,7 +143,7 @@ class Ctx:
 
     # ---------------------------------------------------------------- verdicts
     def save_replay(self, tag, obj):
-        d = os.path.join(VERIF, 'replay', self.pid)
+        d = os.path.join(os.environ.get('VERIF_EVIDENCE_DIR') or VERIF, 'replay', self.pid)
         os.makedirs(d, exist_ok=True)
         h = hashlib.sha1(json.dumps(obj, sort_keys=True, default=str).encode()).hexdigest()[:10]
         path = os.path.join(d, '%s_%s.json' % (tag, h))
@@ -181,8 +181,9 @@ class Ctx:
                   wall_s=round(time.time() - self.t0, 2), violations=len(self.violations))
         if not cov['samples']:
             cov['samples'] = ['(none)']
-        os.makedirs(os.path.join(VERIF, 'evidence'), exist_ok=True)
-        with open(os.path.join(VERIF, 'evidence', self.pid + '.json'), 'w') as f:
+        evdir = os.environ.get('VERIF_EVIDENCE_DIR') or os.path.join(VERIF, 'evidence')
+        os.makedirs(evdir, exist_ok=True)
+        with open(os.path.join(evdir, self.pid + '.json'), 'w') as f:
             json.dump(ev, f, indent=1, default=str)
         shutil.rmtree(self.scratch, ignore_errors=True)
         if self.violations:
@@ -236,6 +237,16 @@ def build_harness():
         return _built
     os.makedirs(BUILD, exist_ok=True)
     h = os.path.join(VERIF, 'harness')
+    if REPO != '/repo':
+        # checks against another working tree (seeded changes are applied in a scratch worktree, never in /repo):
+        # build from a scratch copy of the harness whose replace directive points there
+        h2 = tempfile.mkdtemp(prefix='harness_', dir=BUILD)
+        shutil.copytree(h, h2, dirs_exist_ok=True)
+        gm = open(os.path.join(h2, 'go.mod')).read().replace('=> /repo', '=> ' + REPO)
+        open(os.path.join(h2, 'go.mod'), 'w').write(gm)
+        h = h2
+        import atexit as _ae
+        _ae.register(lambda: shutil.rmtree(h2, ignore_errors=True))
     shutil.copy(os.path.join(REPO, 'go.sum'), os.path.join(h, 'go.sum'))
     exe = os.path.join(BUILD, 'vh_%d' % os.getpid())
     env = dict(os.environ)
